@@ -845,7 +845,127 @@ func (b *bodyClient) Do(req *http.Request) (*http.Response, error) {
 }
 
 // extraProbes: oracle-only cases that the structured ops cannot express.
+// tagIcpt adds one more value under a request header key, as a client interceptor may.
+type tagIcpt struct{ key, value string }
+
+func (i tagIcpt) WrapUnary(next connect.UnaryFunc) connect.UnaryFunc {
+	return func(ctx context.Context, req connect.AnyRequest) (connect.AnyResponse, error) {
+		if req.Spec().IsClient {
+			req.Header().Add(i.key, i.value)
+		}
+		return next(ctx, req)
+	}
+}
+func (i tagIcpt) WrapStreamingClient(next connect.StreamingClientFunc) connect.StreamingClientFunc {
+	return func(ctx context.Context, spec connect.Spec) connect.StreamingClientConn {
+		conn := next(ctx, spec)
+		conn.RequestHeader().Add(i.key, i.value)
+		return conn
+	}
+}
+func (i tagIcpt) WrapStreamingHandler(next connect.StreamingHandlerFunc) connect.StreamingHandlerFunc {
+	return next
+}
+
+// metadataProbes (C11, oracle only): (a) a handler whose first Send fails in the codec still gets
+// its headers, trailers and the error's metadata to the client; (b) header values attached by the
+// caller and by a client interceptor under one key all reach the handler, in every RPC kind.
+func metadataProbes(c *Ctx) {
+	for _, proto := range []string{"connect", "grpc", "grpcweb"} {
+		for _, kind := range []string{"server", "bidi"} {
+			impl := func(send func(*[]byte) error, rh, rt http.Header) error {
+				rh.Add("X-H", "h1")
+				rh.Add("X-H", "h2")
+				rt.Add("X-T", "t1")
+				rt.Add("X-T-Bin", connect.EncodeBinaryHeader([]byte{0, 1, 2}))
+				_ = send(&[]byte{1}) // fails: the codec cannot marshal
+				e := connect.NewError(connect.CodeDataLoss, errors.New("could not encode the response"))
+				e.Meta().Add("X-Err", "e1")
+				return e
+			}
+			var h http.Handler
+			hopts := []connect.HandlerOption{connect.WithCodec(brokenMarshalCodec{rawCodec{"raw"}})}
+			if kind == "server" {
+				h = connect.NewServerStreamHandler("/s/m", func(ctx context.Context, r *connect.Request[[]byte], s *connect.ServerStream[[]byte]) error {
+					return impl(s.Send, s.ResponseHeader(), s.ResponseTrailer())
+				}, hopts...)
+			} else {
+				h = connect.NewBidiStreamHandler("/s/m", func(ctx context.Context, s *connect.BidiStream[[]byte, []byte]) error {
+					for {
+						if _, err := s.Receive(); err != nil {
+							break
+						}
+					}
+					return impl(s.Send, s.ResponseHeader(), s.ResponseTrailer())
+				}, hopts...)
+			}
+			desc := fmt.Sprintf("%s %s handler sets headers and trailers, its first Send fails in the codec, it returns data_loss with metadata", proto, kind)
+			got := safely(func() string {
+				v := callClient(proto, kind, &inprocClient{h: h}, nil, [][]byte{{}})
+				if v.err == nil {
+					return "success"
+				}
+				var ce *connect.Error
+				if !errors.As(v.err, &ce) {
+					return "uncoded " + v.err.Error()
+				}
+				return fmt.Sprintf("code=%s X-H=%q X-T=%q X-T-Bin=%q X-Err=%q", ce.Code(), ce.Meta().Values("X-H"), ce.Meta().Values("X-T"), ce.Meta().Values("X-T-Bin"), ce.Meta().Values("X-Err"))
+			})
+			c.Count("meta-probe:failed-send")
+			want := fmt.Sprintf("code=data_loss X-H=%q X-T=%q X-T-Bin=%q X-Err=%q", []string{"h1", "h2"}, []string{"t1"}, []string{connect.EncodeBinaryHeader([]byte{0, 1, 2})}, []string{"e1"})
+			if got != want {
+				c.Fail("rt-error-meta", desc, got, "on failure every header, trailer and error metadata value the handler set is in the error's metadata: want "+want)
+			}
+		}
+		for _, kind := range []string{"unary", "client", "server", "bidi"} {
+			var seen []string
+			record := func(h http.Header) { seen = append([]string(nil), h.Values("X-Demo-Tag")...) }
+			var h http.Handler
+			raw := connect.WithCodec(rawCodec{"raw"})
+			switch kind {
+			case "unary":
+				h = connect.NewUnaryHandler("/s/m", func(ctx context.Context, r *connect.Request[[]byte]) (*connect.Response[[]byte], error) {
+					record(r.Header())
+					return connect.NewResponse(&[]byte{1}), nil
+				}, raw)
+			case "client":
+				h = connect.NewClientStreamHandler("/s/m", func(ctx context.Context, s *connect.ClientStream[[]byte]) (*connect.Response[[]byte], error) {
+					record(s.RequestHeader())
+					for s.Receive() {
+					}
+					return connect.NewResponse(&[]byte{1}), nil
+				}, raw)
+			case "server":
+				h = connect.NewServerStreamHandler("/s/m", func(ctx context.Context, r *connect.Request[[]byte], s *connect.ServerStream[[]byte]) error {
+					record(r.Header())
+					return nil
+				}, raw)
+			default:
+				h = connect.NewBidiStreamHandler("/s/m", func(ctx context.Context, s *connect.BidiStream[[]byte, []byte]) error {
+					record(s.RequestHeader())
+					for {
+						if _, err := s.Receive(); err != nil {
+							return nil
+						}
+					}
+				}, raw)
+			}
+			desc := fmt.Sprintf("%s %s call: the caller attaches X-Demo-Tag twice, a client interceptor once more", proto, kind)
+			_ = safely(func() string {
+				_ = callClient(proto, kind, &inprocClient{h: h}, hdr{"X-Demo-Tag": {"caller-1", "caller-2"}}, [][]byte{{}}, connect.WithInterceptors(tagIcpt{"X-Demo-Tag", "interceptor"}))
+				return ""
+			})
+			c.Count("meta-probe:interceptor-header")
+			sort.Strings(seen)
+			if strings.Join(seen, "|") != "caller-1|caller-2|interceptor" {
+				c.Fail("rt-request-header-lost", desc, strings.Join(seen, "|"), "every value attached to the call under one key reaches the handler")
+			}
+		}
+	}
+}
+
 func extraProbes(c *Ctx) {
+	metadataProbes(c)
 	// (1) every error a client API returns can be inspected as a Connect error — including the one
 	// from closing a response whose body fails while being drained
 	for _, proto := range []string{"connect", "grpc", "grpcweb"} {
@@ -937,7 +1057,7 @@ func extraProbes(c *Ctx) {
 
 // --- generators -----------------------------------------------------------------------------
 
-var errorTexts = []string{"", "boom", "  leading and trailing blanks  ", "café 100% ✓", "nul\x00ctl\x01\x1f", "line\r\nbreak\ttab", "%41%zz%", "ends with percent %", "x"}
+var errorTexts = []string{"", "boom", "  leading and trailing blanks  ", "café 100% ✓", "nul\x00ctl\x01\x1f", "line\r\nbreak\ttab", "%41%zz%", "ends with percent %", "x", "del \x7f inside", "50%25 off, %41BC"}
 
 func genHeader(r *Rng, keys []string) hdr {
 	h := hdr{}
